@@ -668,10 +668,10 @@ def _run(ctx):
     # ---- E2: behaviours sampled by TLC
     behs, _ = tlc.simulate(ctx, "GitShaMap", cfg_text=mc_cfg(dict(MC, Revs='{"r1", "r2", "r3"}', Shas='{"a", "b", "c"}',
                                                                    MaxEntries=12)),
-                           num=40 if ctx.quick else 600, depth=14, seed=ctx.seed + 1, label="simulate abstract map")
+                           num=40 if ctx.quick else 400, depth=14, seed=ctx.seed + 1, label="simulate abstract map")
     jobs = [(b, 0) for b in behs]
     # ---- E3 (primary): native histories and raw API sequences
-    nh, nr = (100, 60) if ctx.quick else (1500, 800)
+    nh, nr = (100, 60) if ctx.quick else (1200, 600)
     jobs += [("history", ctx.seed * 100000 + i) for i in range(nh)]
     jobs += [("raw", ctx.seed * 100000 + 50000 + i) for i in range(nr)]
     _KINDS[:] = kinds               # read by the (forked) workers
